@@ -17,6 +17,9 @@ package quic
 //   stream.go flushLocked: `min(s.outwin, s.out.end)` -> `s.out.end`                             caught by VerifC20_send
 //   conn_flow.go handleStreamBytesReceived: `usedLimit > sentLimit` -> `> sentLimit+1`            caught by VerifC20_recv
 //   stream.go handleMaxStreamData: `maxStreamData <= s.outwin` -> `==` (window may shrink)        caught by VerifC20_window
+//   seeded C20-B: conn_streams.go streamForFrame: `s.outwin = peerInitialMaxStreamDataBidiLocal` ->
+//     `peerInitialMaxStreamDataRemote[bidiStream]` (peer-opened stream takes the limit meant for our streams)
+//     caught by VerifC20_initwin (quick) and by the peer-origin runs of VerifC20_send/_resend (thorough)
 
 import (
 	"context"
